@@ -6,7 +6,7 @@
    never place an operation after one that was invoked only after it had returned. *)
 From Coq Require Import List NArith ZArith Bool.
 Import ListNotations.
-From VF Require Export C13.Model C11.Corr.
+From VF Require Export C13.Model C11.Corr C13.Rendezvous.
 Local Open Scope N_scope.
 
 Definition kout_eqb (a b : kout) : bool :=
@@ -51,7 +51,9 @@ Inductive xcase :=
 | HInbox (h : list (hrec iop iout)) (w : list nat)
 | HMsg (h : list (hrec mop mout)) (w : list nat)
 (* provider level, over the in-memory base: C11's provider-level CONTRACT machine (Close deletes) *)
-| HProv (h : list (hrec pop pout)) (w : list nat).
+| HProv (h : list (hrec pop pout)) (w : list nat)
+(* request/response rendezvous: the forced schedule, the requester's result, the handlers' final states *)
+| HRv (msgs : list N) (sched : list (nat * bool)) (res : option N) (os : list robs).
 
 Definition check_xcase (x : xcase) : bool :=
   match x with
@@ -62,6 +64,7 @@ Definition check_xcase (x : xcase) : bool :=
   | HInbox h w => valid_linearization inbox_step iout_eqb [] h w
   | HMsg h w => valid_linearization msg_step mout_eqb [] h w
   | HProv h w => valid_linearization (pspec_step false) pout_eqb [] h w
+  | HRv msgs sched res os => rv_check msgs sched res os
   end.
 
 Fixpoint mismatches_from (i : nat) (cs : list xcase) : list nat :=
